@@ -46,6 +46,11 @@ func c02ThresholdD(v ssa.Value, depth int) (string, bool) {
 	if depth > 6 {
 		return "", false
 	}
+	// a threshold written as arithmetic over the cluster size / over Quorum()/Faulty() / in a pure helper is
+	// classified by folding it over the finite domain of cluster sizes (c02n5_eval.go), not by its spelling
+	if k, ok := c02FormulaKind(v); ok {
+		return k, true
+	}
 	v = an.Resolve(v)
 	switch x := v.(type) {
 	case *ssa.Call:
@@ -172,6 +177,26 @@ func c02QuorumCmp(bin *ssa.BinOp) (count ssa.Value, kind string, op token.Token,
 		}
 	}
 	return count, kind, op, true
+}
+
+// c02FormulaOperand returns the operand of the comparison (or of the difference it compares with zero) that is the
+// folded "formula" threshold the count is compared with.
+func c02FormulaOperand(bin *ssa.BinOp, count ssa.Value) ssa.Value {
+	cands := []ssa.Value{bin.X, bin.Y}
+	for _, o := range []ssa.Value{bin.X, bin.Y} {
+		if sub, ok := an.Resolve(o).(*ssa.BinOp); ok && sub.Op == token.SUB {
+			cands = append(cands, sub.X, sub.Y)
+		}
+	}
+	for _, o := range cands {
+		if o == count {
+			continue
+		}
+		if k, ok := c02FormulaKind(o); ok && k == "formula" {
+			return o
+		}
+	}
+	return nil
 }
 
 // phiWeb collects the phi web of v and its non-phi inputs.
@@ -1098,6 +1123,31 @@ func c02Q1Rule(c *rt.Ctx) {
 			}
 			if kind == "mixed" {
 				c.Unsure(key, pos, "the comparison mixes the threshold and the count in one arithmetic expression; form not recognised (expected count >= T, count < T or count == T)")
+				continue
+			}
+			if kind == "formula" {
+				thr := c02FormulaOperand(bin, count)
+				if _, isC := an.Resolve(count).(*ssa.Const); isC || thr == nil {
+					continue // arithmetic on the cluster size that counts nothing
+				}
+				want, owner, known := c02ExpectFor(fn)
+				if !known {
+					c.Unsure(key, pos, "a count is compared with arithmetic over the cluster size that is neither Quorum() nor Faulty()+1, in a function that is neither in the frozen threshold table nor a helper owned by one")
+					continue
+				}
+				wit, differs, decided := c02FormulaVerdict(thr, want)
+				switch {
+				case differs:
+					for _, o := range strings.Split(owner, ",") {
+						covered[o]++ // the function does decide on a count: reported here, not as a hidden threshold
+					}
+					c.Bad(key, pos, fmt.Sprintf("count is compared with hand-written arithmetic over the cluster size that is not the threshold %s the protocol rule (%s) needs: %s (every site deciding on this quorum must use the same threshold for every cluster size)", want, owner, wit))
+				case decided:
+					// same table as the wanted threshold: c02FormulaKind would have named it; unreachable
+					c.Unsure(key, pos, "threshold arithmetic folded inconsistently")
+				default:
+					c.Unsure(key, pos, fmt.Sprintf("count is compared with arithmetic over the cluster size that equals %s for n=%d..%d but not for every n up to %d, or could not be folded", want, c02EvPropLo, c02EvPropHi, c02EvHi))
+				}
 				continue
 			}
 			if kind == "derived" {
